@@ -41,7 +41,18 @@ func (d *Decoder) Decode(r io.Reader, t *dials.Type) (reflect.Value, error) {
 
 	// Get a pointer to our value, so we can pass that.
 	instance := val.Addr().Interface()
-	err = tomlparser.Unmarshal(tomlBytes, instance)
+	err = func() (err error) {
+		// go-toml converts document values to the field's type with
+		// reflect.Value.Convert without checking convertibility: a value of
+		// the wrong type for a field of a user-defined scalar type (or an
+		// integer-keyed map) makes it panic. Report that as an error.
+		defer func() {
+			if r := recover(); r != nil {
+				err = fmt.Errorf("error decoding TOML: %v", r)
+			}
+		}()
+		return tomlparser.Unmarshal(tomlBytes, instance)
+	}()
 	if err != nil {
 		return reflect.Value{}, err
 	}
